@@ -97,9 +97,13 @@ func c05RunVForms(t *testing.T, w *storage.VerifC05Writer, op c05VFormsOp) {
 	handlers := map[string]*openidHandler{"own": mk(issuerDID, issuerIdentifier), "other": mk(c05VOtherDID, "http://example.com/other")}
 	st := NewOpenIDMemoryStore(b.DB)
 	ctx := context.Background()
-	var answers []string
+	var answers, callSeqs []string
+	var calls []string
+	b.Gate.Calls = &calls
 	for _, f := range op.Reqs {
 		f := f
+		calls = calls[:0]
+		var seq []string
 		if f.Dt > 0 && b.Advance != nil {
 			b.Advance(time.Duration(f.Dt) * time.Second)
 		}
@@ -122,6 +126,12 @@ func c05RunVForms(t *testing.T, w *storage.VerifC05Writer, op c05VFormsOp) {
 				return "ok"
 			}
 			token, cNonce, err := handlers[f.At].HandleAccessTokenRequest(audit.TestContext(), f.Code)
+			// the underlying store calls the token endpoint made on the pre-authorized-code store, in order
+			for _, c := range calls {
+				if i := strings.Index(c, ":"); strings.HasPrefix(c[i+1:], "openid4vci/preauthcode/") {
+					seq = append(seq, c[:i+1]+"preauth/"+strings.TrimPrefix(c[i+1:], "openid4vci/preauthcode/"))
+				}
+			}
 			if err != nil {
 				return c05VErr(err)
 			}
@@ -137,7 +147,9 @@ func c05RunVForms(t *testing.T, w *storage.VerifC05Writer, op c05VFormsOp) {
 			return "200:" + fa.ID
 		}()
 		answers = append(answers, ans)
+		callSeqs = append(callSeqs, strings.Join(seq, ","))
 	}
+	b.Gate.Calls = nil
 	var live, at, cn []string
 	val := func(refType, key string) string {
 		var s string
@@ -171,7 +183,7 @@ func c05RunVForms(t *testing.T, w *storage.VerifC05Writer, op c05VFormsOp) {
 	raw, _ := json.Marshal(op)
 	var m map[string]interface{}
 	_ = json.Unmarshal(raw, &m)
-	w.Raw(m, fmt.Sprintf("vforms ans=%s live=[%s] at=[%s] cn=[%s]", strings.Join(answers, ";"), strings.Join(live, ","), strings.Join(at, ","), strings.Join(cn, ",")))
+	w.Raw(m, fmt.Sprintf("vforms ans=%s live=[%s] at=[%s] cn=[%s] calls=[%s]", strings.Join(answers, ";"), strings.Join(live, ","), strings.Join(at, ","), strings.Join(cn, ","), strings.Join(callSeqs, ";")))
 }
 
 func c05GenVForms(rng *rand.Rand, idx int, backend string) c05VFormsOp {
